@@ -1,12 +1,12 @@
 package ir
 
 import (
-	"strings"
 	"fmt"
 	"go/constant"
 	"go/token"
 	"go/types"
 	"os"
+	"strings"
 
 	"golang.org/x/tools/go/ssa"
 )
@@ -120,7 +120,11 @@ func (b *Builder) Addr(v ssa.Value) *Term {
 	case *ssa.Alloc:
 		return &Term{Op: OAlloc, N: b.id(x)}
 	}
-	return &Term{Op: "deref", Args: []*Term{b.Term(v)}}
+	if t := b.Term(v); t.Op == OAddr && len(t.Args) == 1 {
+		return t.Args[0]
+	} else {
+		return &Term{Op: "deref", Args: []*Term{t}}
+	}
 }
 
 // indexTerm: an element of a reconstructed element list at a constant index is that element.
